@@ -330,6 +330,9 @@ def has_opaque(n):
     return any(a.startswith("opq:") for a in atoms(n))
 
 
+SHOW_LIMIT = 4000
+
+
 def show(n, depth=0):
     if not isinstance(n, tuple):
         return str(n)
@@ -345,6 +348,9 @@ def show(n, depth=0):
         return "?%s" % (n[1],)
     if depth > 40:
         return "..."
+    if depth > 0 and tsize(n) > SHOW_LIMIT:
+        # a shared DAG printed as a tree is exponential: abbreviate (only diagnostics use the text)
+        return "<%s-expression of %d nodes>" % (n[1] if k == "fn" else k, tsize(n))
     if k == "neg":
         return "-(" + show(n[1], depth + 1) + ")"
     if k == "fn":
